@@ -314,3 +314,115 @@ impl Drop for Worker {
         }
     }
 }
+
+/// Run a command with a pseudo-terminal as stdin / stdout / stderr (the environment answer "stdin is
+/// a terminal"), typing `lines` one by one, then a marker line, then end-of-file. Returns the
+/// terminal transcript in `stdout`; `stderr` tells whether the marker's value was seen.
+pub fn run_pty(program: &str, args: &[String], lines: &[String], marker_line: &str, marker_seen: &str, stack_limit: Option<u64>, timeout: Duration) -> CliResult {
+    use std::os::unix::io::FromRawFd;
+    use std::os::unix::process::{CommandExt, ExitStatusExt};
+    let mut master: libc::c_int = -1;
+    let mut slave: libc::c_int = -1;
+    let ws = libc::winsize { ws_row: 50, ws_col: 200, ws_xpixel: 0, ws_ypixel: 0 };
+    if unsafe { libc::openpty(&mut master, &mut slave, std::ptr::null_mut(), std::ptr::null(), &ws) } != 0 {
+        return CliResult { code: None, signal: None, stdout: String::new(), stderr: "openpty failed".into(), timed_out: false };
+    }
+    let mut cmd = Command::new(program);
+    cmd.args(args).env("RUST_BACKTRACE", "0").env("NO_COLOR", "1").env("TERM", "dumb");
+    unsafe {
+        cmd.stdin(Stdio::from_raw_fd(libc::dup(slave))).stdout(Stdio::from_raw_fd(libc::dup(slave))).stderr(Stdio::from_raw_fd(libc::dup(slave)));
+        cmd.pre_exec(move || {
+            libc::setsid();
+            libc::ioctl(0, libc::TIOCSCTTY, 0);
+            libc::close(master);
+            if let Some(limit) = stack_limit {
+                let lim = libc::rlimit { rlim_cur: limit, rlim_max: limit };
+                libc::setrlimit(libc::RLIMIT_STACK, &lim);
+            }
+            let zero = libc::rlimit { rlim_cur: 0, rlim_max: 0 };
+            libc::setrlimit(libc::RLIMIT_CORE, &zero);
+            Ok(())
+        });
+    }
+    let spawned = cmd.spawn();
+    drop(cmd);
+    unsafe { libc::close(slave) };
+    let mut child = match spawned {
+        Ok(c) => c,
+        Err(e) => {
+            unsafe { libc::close(master) };
+            return CliResult { code: None, signal: None, stdout: String::new(), stderr: format!("spawn failed: {}", e), timed_out: false };
+        }
+    };
+    unsafe {
+        let fl = libc::fcntl(master, libc::F_GETFL);
+        libc::fcntl(master, libc::F_SETFL, fl | libc::O_NONBLOCK);
+    }
+    let mut pending: Vec<u8> = Vec::new();
+    for l in lines {
+        pending.extend_from_slice(l.as_bytes());
+        pending.push(b'\n');
+    }
+    pending.extend_from_slice(marker_line.as_bytes());
+    pending.push(b'\n');
+    let mut out: Vec<u8> = Vec::new();
+    let start = Instant::now();
+    let mut timed_out = false;
+    let mut sent_eof = false;
+    let mut seen = false;
+    let mut hung_up = false;
+    let mut buf = [0u8; 8192];
+    let status = loop {
+        if let Ok(Some(s)) = child.try_wait() {
+            // drain what is left
+            loop {
+                let n = unsafe { libc::read(master, buf.as_mut_ptr() as *mut libc::c_void, buf.len()) };
+                if n <= 0 {
+                    break;
+                }
+                out.extend_from_slice(&buf[..n as usize]);
+            }
+            break Some(s);
+        }
+        if start.elapsed() > timeout {
+            let _ = child.kill();
+            timed_out = true;
+            break child.wait().ok();
+        }
+        let mut pfd = libc::pollfd { fd: master, events: libc::POLLIN | if pending.is_empty() || hung_up { 0 } else { libc::POLLOUT }, revents: 0 };
+        let _ = unsafe { libc::poll(&mut pfd, 1, 20) };
+        if pfd.revents & libc::POLLIN != 0 {
+            let n = unsafe { libc::read(master, buf.as_mut_ptr() as *mut libc::c_void, buf.len()) };
+            if n > 0 {
+                out.extend_from_slice(&buf[..n as usize]);
+            }
+        }
+        if pfd.revents & (libc::POLLHUP | libc::POLLERR) != 0 {
+            hung_up = true;
+            std::thread::sleep(Duration::from_millis(2));
+        }
+        if !hung_up && !pending.is_empty() && pfd.revents & libc::POLLOUT != 0 {
+            // one line at a time: the terminal's line buffer is small
+            let end = pending.iter().position(|b| *b == b'\n' || *b == 4).map(|p| p + 1).unwrap_or(pending.len());
+            let n = unsafe { libc::write(master, pending.as_ptr() as *const libc::c_void, end) };
+            if n > 0 {
+                pending.drain(..n as usize);
+            }
+        }
+        if !seen && String::from_utf8_lossy(&out).contains(marker_seen) {
+            seen = true;
+        }
+        if seen && pending.is_empty() && !sent_eof {
+            pending.push(4);
+            sent_eof = true;
+        }
+    };
+    unsafe { libc::close(master) };
+    CliResult {
+        code: status.and_then(|s| s.code()),
+        signal: status.and_then(|s| s.signal()),
+        stdout: String::from_utf8_lossy(&out).to_string(),
+        stderr: if seen { "marker-seen".into() } else { "marker-not-seen".into() },
+        timed_out,
+    }
+}
